@@ -31,6 +31,11 @@ def frame(framing, count, req, fill=0, at=None):
     f = _frame(framing, count, req, fill, at)
     if mbap is not None and framing == 'tcp':
         # GoodWe devices fill the MBAP length field unreliably (the library ignores it on purpose): byte count only / 0
+        if mbap.startswith('tx-'):
+            # ... and the transaction id: inverters that answer with a constant id, their own counter, or zero
+            tx = {'tx-const': b'\x00\x01', 'tx-zero': b'\x00\x00', 'tx-plus1': struct.pack('>H', (struct.unpack('>H', req[:2])[0] + 1) & 0xFFFF),
+                  'tx-ffff': b'\xff\xff'}[mbap]
+            return tx + f[2:]
         ln = {'bytecount': 2 * count, 'zero': 0, 'six': 6}[mbap]
         f = f[:4] + struct.pack('>H', ln) + f[6:]
     return f
@@ -109,7 +114,7 @@ def positive_cases(framing, counts, delays):
     if framing == 'tcp':
         for count in [c for c in counts if c in (1, 3, 61)] or counts[:1]:
             L = len(_frame(framing, count, b'\0\0'))
-            for mb in ('bytecount', 'zero', 'six'):
+            for mb in ('bytecount', 'zero', 'six', 'tx-const', 'tx-zero', 'tx-plus1', 'tx-ffff'):
                 for p in range(MINH[framing], L):
                     if count > 3 and p not in (MINH[framing], MINH[framing] + 1, L // 2, L - 1):
                         continue
@@ -375,7 +380,7 @@ def job(j):
         for clause, cause in v:
             sub = case[4] if case[0] in ('neg',) else (f'{case[4]}/{case[5]}' if case[0] in ('left', 'cross', 'cross-newloop') else case[4])
             if case[0] == 'pos' and len(case) > 5:
-                sub = f'remainder-begins-with-{case[5]}' if not str(case[5]).startswith('mbap=') else f'unreliable-length-field:{case[5][5:]}'
+                sub = f'remainder-begins-with-{case[5]}' if not str(case[5]).startswith('mbap=') else (f'unreliable-length-field:{case[5][5:]}' if not case[5][5:].startswith('tx-') else f'answer-carries-another-transaction-id:{case[5][8:]}')
             key = f'{clause}/{framing}/ka={int(ka)}/{case[0]}:{sub}'
             vio.setdefault(key, []).append((clause, case, cause))
     out = []
